@@ -224,6 +224,7 @@ Section RP.
   Variable primes : list N.
   Variables num den : N.
   Variable owns : N -> list N.
+  Variable spawns : N -> list (N * bool).
   Variables rem_fin null_first : bool.
   Hypothesis swap_le : forall j p, swap j p = true -> p <= j.
   Hypothesis swap_ge : forall j p, swap j p = false -> j <= p.
@@ -338,7 +339,7 @@ Section RP.
       (forall x, In x rm <-> Holds l x /\ keeper x = false) /\
       occupied l' + length rm = occupied l.
   Proof.
-    clear swap_le swap_ge ideal_gt rem_fin null_first owns primes num den swap.
+    clear swap_le swap_ge ideal_gt rem_fin null_first owns spawns primes num den swap.
     induction f as [|f IH]; intros l i nit pl ev Hc Hocc0 Hinv Hf; [lia|].
     cbn [sweep_loop]. destruct (Nat.leb_spec (length l) i) as [Hge|Hlt].
     - exists l, []. cbn [length pend_of reclaim_evs map rev app]. rewrite Nat.sub_0_r, app_nil_r.
@@ -515,7 +516,8 @@ Section RP.
   Qed.
 
   Lemma resize_less_ok g : Inv g ->
-    exists l', resize_less hashf swap primes num den g = Some (set_slots g l') /\ Inv (set_slots g l').
+    exists l', resize_less hashf swap primes num den g = Some (set_slots g l') /\ Inv (set_slots g l') /\
+               (forall x, Holds l' x <-> Holds (slots g) x).
   Proof.
     intros Hi. pose proof Hi as [H Hcl]. unfold resize_less.
     destruct (Nat.ltb_spec (ideal (nitems g)) (nslots g)) as [Hlt|Hge].
@@ -524,15 +526,125 @@ Section RP.
       + assumption.
       + rewrite <- (inv_count g H). pose proof (ideal_gt (nitems g)). unfold RegistryModel.ideal. lia.
       + pose proof (ideal_gt (nitems g)). unfold RegistryModel.ideal. lia.
-      + exists l'. split; [exact Hr|]. apply Inv_same_entries; auto.
+      + exists l'. split; [exact Hr|]. split; [|exact Hh]. apply Inv_same_entries; auto.
         right. rewrite Hlen. apply ideal_gt.
-    - exists (slots g). destruct g; simpl. split; [reflexivity|exact Hi].
+    - exists (slots g). destruct g; simpl. split; [reflexivity|]. split; [exact Hi|tauto].
   Qed.
 
-  Definition issome (x : option N) : bool := match x with Some _ => true | None => false end.
-  Definition cnt (pl : list (option N)) : nat := length (filter issome pl).
-  (* what bounds the nesting of destructor-issued removals *)
-  Definition measure (g : gc) : nat := nitems g + cnt (pending g).
+  (* ---------------------------------------------------------------- what bounds the nesting *)
+  (* destructors delete only addresses of a finite list, and never allocate one of them *)
+  Variable olist : list N.
+  Hypothesis olist_nodup : NoDup olist.
+  Hypothesis owns_olist : forall q t, In t (owns q) -> In t olist.
+  Hypothesis spawns_olist : forall q p r, In (p, r) (spawns q) -> ~ In p olist.
+
+  Lemma is_reg_spec l a : is_reg l a = true <-> exists e, Holds l e /\ ptr e = a.
+  Proof.
+    unfold is_reg. rewrite existsb_exists. split; intros [e [H1 H2]]; exists e.
+    - split; [apply in_entries; assumption|apply N.eqb_eq; assumption].
+    - split; [apply in_entries; assumption|apply N.eqb_eq; assumption].
+  Qed.
+
+  Lemma is_reg_false l a : is_reg l a = false -> HAbsent l a.
+  Proof.
+    intros H e He Hp. assert (is_reg l a = true); [|congruence]. apply is_reg_spec. exists e. auto.
+  Qed.
+
+  Lemma is_pending_in p pl : is_pending p pl = true -> In (Some p) pl.
+  Proof.
+    induction pl as [|x pl IH]; simpl; [discriminate|].
+    destruct x as [y|]; simpl; [|intros H; right; auto].
+    destruct (N.eqb_spec y p) as [->|]; simpl; [left; reflexivity|intros H; right; auto].
+  Qed.
+
+  Lemma in_is_pending p pl : In (Some p) pl -> is_pending p pl = true.
+  Proof.
+    intros H. unfold is_pending. apply existsb_exists. exists (Some p). split; [assumption|apply N.eqb_refl].
+  Qed.
+
+  (* an owned address that is still in the table or in the pending list *)
+  Definition live (g : gc) (a : N) : bool := is_reg (slots g) a || is_pending a (pending g).
+  Definition measureO (g : gc) : nat := length (filter (live g) olist).
+  Definition Le (g' g : gc) : Prop := forall a, In a olist -> live g' a = true -> live g a = true.
+
+  Lemma filter_le (P' P : N -> bool) L : (forall a, In a L -> P' a = true -> P a = true) ->
+    length (filter P' L) <= length (filter P L).
+  Proof.
+    induction L as [|x L IH]; intros H; simpl; [lia|].
+    assert (IH' : length (filter P' L) <= length (filter P L)) by (apply IH; intros; apply H; simpl; auto).
+    destruct (P' x) eqn:H1; [rewrite (H x (or_introl eq_refl) H1); simpl; lia|destruct (P x); simpl; lia].
+  Qed.
+
+  Lemma filter_lt (P' P : N -> bool) L p : (forall a, In a L -> P' a = true -> P a = true) ->
+    In p L -> P p = true -> P' p = false -> length (filter P' L) < length (filter P L).
+  Proof.
+    induction L as [|x L IH]; intros H Hin Hp Hp'; simpl; [destruct Hin|].
+    assert (Hle : length (filter P' L) <= length (filter P L)) by (apply filter_le; intros; apply H; simpl; auto).
+    destruct Hin as [->|Hin].
+    - rewrite Hp, Hp'. simpl. lia.
+    - assert (IH' : length (filter P' L) < length (filter P L)) by (apply IH; auto; intros; apply H; simpl; auto).
+      destruct (P' x) eqn:H1; [rewrite (H x (or_introl eq_refl) H1); simpl; lia|destruct (P x); simpl; lia].
+  Qed.
+
+  Lemma Le_refl g : Le g g.
+  Proof. intros a _ H. exact H. Qed.
+
+  Lemma Le_trans a b c : Le a b -> Le b c -> Le a c.
+  Proof. intros H1 H2 x Hx H. apply H2; auto. Qed.
+
+  Lemma Le_measure g' g : Le g' g -> measureO g' <= measureO g.
+  Proof. intros H. apply filter_le. exact H. Qed.
+
+  Lemma Lt_measure g' g p : Le g' g -> In p olist -> live g p = true -> live g' p = false ->
+    measureO g' < measureO g.
+  Proof. intros H Hin H1 H2. apply (filter_lt (live g') (live g) olist p); auto. Qed.
+
+  (* Le from containment of the tables and of the pending lists *)
+  Lemma Le_sub g' g : (forall e, Holds (slots g') e -> Holds (slots g) e \/ ~ In (ptr e) olist) ->
+    (forall q, In (Some q) (pending g') -> In (Some q) (pending g)) -> Le g' g.
+  Proof.
+    intros Hs Hp a Ha H. unfold live in *. apply orb_true_iff in H. apply orb_true_iff. destruct H as [H|H].
+    - apply is_reg_spec in H. destruct H as [e [He Hpe]]. destruct (Hs e He) as [H1|H1].
+      + left. apply is_reg_spec. exists e. auto.
+      + rewrite Hpe in H1. contradiction.
+    - right. apply in_is_pending. apply Hp. apply is_pending_in. assumption.
+  Qed.
+
+  Definition somes (pl : list (option N)) : list N :=
+    flat_map (fun x => match x with Some q => [q] | None => [] end) pl.
+
+  Lemma somes_length pl : length (somes pl) <= length pl.
+  Proof. induction pl as [|[q|] pl IH]; simpl; lia. Qed.
+
+  Lemma in_somes q pl : In (Some q) pl -> In q (somes pl).
+  Proof.
+    unfold somes. intros H. apply in_flat_map. exists (Some q). split; [assumption|left; reflexivity].
+  Qed.
+
+  Lemma filter_or_le (P Q : N -> bool) L :
+    length (filter (fun a => P a || Q a) L) <= length (filter P L) + length (filter Q L).
+  Proof. induction L as [|x L IH]; simpl; [lia|]. destruct (P x), (Q x); simpl; lia. Qed.
+
+  (* there are no more live owned addresses than entries plus pending slots: the fuel `depth`
+     of the model is enough *)
+  Lemma measureO_bound g : InvM g -> measureO g <= nitems g + length (pending g).
+  Proof.
+    intros H. unfold measureO, live.
+    pose proof (filter_or_le (is_reg (slots g)) (fun a => is_pending a (pending g)) olist) as H0.
+    assert (H1 : length (filter (is_reg (slots g)) olist) <= nitems g).
+    { rewrite (inv_count g H). unfold RobinHood.occupied. rewrite <- (map_length ptr).
+      apply NoDup_incl_length; [apply NoDup_filter; assumption|].
+      intros a Ha. apply filter_In in Ha. destruct Ha as [_ Ha]. apply is_reg_spec in Ha.
+      destruct Ha as [e [He <-]]. apply in_map. apply in_entries. assumption. }
+    assert (H2 : length (filter (fun a => is_pending a (pending g)) olist) <= length (pending g)).
+    { pose proof (somes_length (pending g)).
+      assert (length (filter (fun a => is_pending a (pending g)) olist) <= length (somes (pending g))); [|lia].
+      apply NoDup_incl_length; [apply NoDup_filter; assumption|].
+      intros a Ha. apply filter_In in Ha. destruct Ha as [_ Ha]. apply in_somes. apply is_pending_in. assumption. }
+    lia.
+  Qed.
+
+  Definition extra (p : N) : nat := if in_dec N.eq_dec p olist then 0 else 1.
 
   Lemma Inv_new_mitems g : Inv g -> Inv (new_mitems g).
   Proof. intros [[]]. split; [constructor|]; assumption. Qed.
@@ -547,27 +659,12 @@ Section RP.
     destruct x as [y|]; [|discriminate]. destruct (N.eqb y p); [discriminate|]. left. assumption.
   Qed.
 
-  Lemma null_out_cnt p pl : cnt (null_out p pl) <= cnt pl.
+  Lemma null_out_not_pending p pl : is_pending p (null_out p pl) = false.
   Proof.
-    unfold cnt. induction pl as [|x pl IH]; simpl; [lia|].
-    destruct x as [y|]; simpl; [|assumption]. destruct (N.eqb y p); simpl; lia.
-  Qed.
-
-  Lemma null_out_cnt_hit p pl : is_pending p pl = true -> cnt (null_out p pl) < cnt pl.
-  Proof.
-    unfold cnt. induction pl as [|x pl IH]; simpl; [discriminate|].
-    destruct x as [y|]; simpl.
-    - destruct (N.eqb y p) eqn:He; simpl.
-      + intros _. pose proof (null_out_cnt p pl). unfold cnt in *. lia.
-      + intros H. apply IH in H. lia.
-    - assumption.
-  Qed.
-
-  Lemma is_pending_in p pl : is_pending p pl = true -> In (Some p) pl.
-  Proof.
-    induction pl as [|x pl IH]; simpl; [discriminate|].
-    destruct x as [y|]; simpl; [|intros H; right; auto].
-    destruct (N.eqb_spec y p) as [->|]; simpl; [left; reflexivity|intros H; right; auto].
+    induction pl as [|x pl IH]; simpl; [reflexivity|].
+    destruct x as [y|]; simpl; [|assumption].
+    destruct (N.eqb_spec y p) as [->|Hne]; simpl; [assumption|].
+    destruct (N.eqb_spec y p); [contradiction|assumption].
   Qed.
 
   Lemma upd_opt_in k pl q : In (Some q) (upd_opt k pl) -> In (Some q) pl.
@@ -575,13 +672,6 @@ Section RP.
     revert k. induction pl as [|x pl IH]; intros [|k]; simpl; try tauto.
     - intros [H|H]; [discriminate|right; assumption].
     - intros [H|H]; [left; assumption|right; eauto].
-  Qed.
-
-  Lemma upd_opt_cnt k pl : cnt (upd_opt k pl) <= cnt pl.
-  Proof.
-    unfold cnt. revert k. induction pl as [|x pl IH]; intros [|k]; simpl; try lia.
-    - destruct x; simpl; lia.
-    - specialize (IH k). destruct x; simpl; lia.
   Qed.
 
   (* ---------------------------------------------------------------- invariant-keeping updates *)
@@ -634,30 +724,166 @@ Section RP.
     - intros e He'. apply Hcl. apply Hh. assumption.
   Qed.
 
-  (* ---------------------------------------------------------------- removal, nested *)
-  Local Notation gc_rem' := (gc_rem hashf swap primes num den owns rem_fin).
+  (* ---------------------------------------------------------------- registration (GC_Set up to the threshold test) *)
+  Lemma Inv_log_viol g : Inv g -> Inv (log g EvViol).
+  Proof. intros [[]]. split; [constructor|]; assumption. Qed.
 
-  Definition rem_good (f : nat) : Prop := forall g p, Inv g -> measure g < f ->
-    exists g', gc_rem' f g p = Some g' /\ Inv g' /\ measure g' <= measure g /\
-               length (pending g') = length (pending g).
-
-  Lemma fold_rem_ok f : rem_good f -> forall ts g, Inv g -> measure g < f ->
-    exists g', fold_left (fun og t => match og with Some g1 => gc_rem' f g1 t | None => None end) ts (Some g) = Some g'
-               /\ Inv g' /\ measure g' <= measure g /\ length (pending g') = length (pending g).
+  (* a fresh address has been inserted *)
+  Lemma Inv_alloc g g' p r ev l2 l3 : Inv g -> ~ In (Some p) (pending g) -> Core l3 ->
+    (ev = EvAlloc p r \/ ev = EvSpawn p r) ->
+    (forall x, Holds l2 x <-> Holds (slots g) x) -> occupied l2 = occupied (slots g) ->
+    (forall x, Holds l3 x <-> Holds l2 x \/ x = mkE p r false) -> occupied l3 = S (occupied l2) ->
+    S (nitems g) < length l3 ->
+    slots g' = l3 -> nitems g' = S (nitems g) ->
+    minptr g' = N.min p (minptr g) -> maxptr g' = N.max p (maxptr g) ->
+    pending g' = pending g -> evs g' = ev :: evs g -> Inv g'.
   Proof.
-    intros Hg. induction ts as [|t ts IH]; intros g Hi Hm; simpl.
-    - exists g. split; [reflexivity|]. split; [assumption|split; [lia|reflexivity]].
-    - destruct (Hg g t Hi Hm) as [g1 [H1 [Hi1 [Hm1 Hp1]]]]. rewrite H1.
-      destruct (IH g1 Hi1 ltac:(lia)) as [g2 [H2 [Hi2 [Hm2 Hp2]]]]. exists g2. split; [exact H2|].
-      split; [assumption|split; [lia|congruence]].
+    intros [H Hcl] Hnp Hc Hev H2 Ho2 H3 Ho3 Hroom Hs Hn Hlo Hhi Hp He.
+    pose proof (inv_count g H) as Hcnt. unfold Inv, Clear. rewrite Hs. split; [constructor|].
+    - rewrite Hs. assumption.
+    - rewrite Hs, Hn. lia.
+    - unfold nslots. rewrite Hs, Hn. lia.
+    - rewrite Hs, Hlo, Hhi. intros e He'. apply H3 in He'. destruct He' as [He'| ->]; [|simpl; lia].
+      apply H2 in He'. pose proof (inv_bounds g H e He'). lia.
+    - rewrite Hs, Hp. intros q Hq e He'. apply H3 in He'. destruct He' as [He'| ->].
+      + apply (inv_pend g H q Hq). apply H2. assumption.
+      + simpl. intros ->. contradiction.
+    - unfold Reg. rewrite Hs, He. intros q s.
+      assert (Hl : led (ev :: evs g) q s <-> (q = p /\ s = r) \/ led (evs g) q s)
+        by (destruct Hev as [-> | ->]; reflexivity).
+      rewrite Hl, <- (inv_led g H q s). unfold Reg, Regs. split.
+      + intros [e [He' [Hpe Hre]]]. apply H3 in He'. destruct He' as [He'| ->].
+        * right. exists e. split; [apply H2; assumption|auto].
+        * left. simpl in *. auto.
+      + intros [[-> ->]|[e [He' Hpr]]].
+        * exists (mkE p r false). split; [apply H3; right; reflexivity|auto].
+        * exists e. split; [apply H3; left; apply H2; assumption|assumption].
+    - intros e He'. apply H3 in He'. destruct He' as [He'| ->]; [|reflexivity]. apply Hcl. apply H2. assumption.
   Qed.
 
-  Lemma finalise_ok f : rem_good f -> forall g q, Inv g -> measure g < f ->
-    exists g', finalise_with owns (gc_rem' f) g q = Some g' /\ Inv g' /\ measure g' <= measure g /\
+  Local Notation gc_register' := (gc_register hashf swap primes num den).
+
+  (* count, bounds, Resize_More, Set_Ptr for an address that is neither registered nor pending:
+     total, keeps the invariant — also in the middle of a sweep (pending list not empty) *)
+  Lemma gc_register_ok g p r ev : Inv g -> HAbsent (slots g) p -> ~ In (Some p) (pending g) ->
+    (ev = EvAlloc p r \/ ev = EvSpawn p r) ->
+    exists g3, gc_register' g p r ev = (g3, OOk) /\ Inv g3 /\ pending g3 = pending g /\
+      running g3 = running g /\ nitems g3 = S (nitems g) /\
+      (forall x, Holds (slots g3) x <-> Holds (slots g) x \/ x = mkE p r false).
+  Proof.
+    intros Hi Hfresh Hnp Hev. pose proof Hi as [H Hcl]. unfold gc_register.
+    set (g1 := set_bounds (set_nitems g (S (nitems g))) (N.min p (minptr g)) (N.max p (maxptr g))).
+    pose proof (inv_count g H) as Hcnt. pose proof (ideal_gt (S (nitems g))) as Hid.
+    assert (Hrm : exists l2, resize_more hashf swap primes num den g1 = Some (set_slots g1 l2) /\ Core l2 /\
+              (forall x, Holds l2 x <-> Holds (slots g) x) /\ occupied l2 = occupied (slots g) /\
+              S (nitems g) < length l2).
+    { unfold resize_more. change (nitems g1) with (S (nitems g)). change (nslots g1) with (nslots g).
+      destruct (Nat.ltb_spec (nslots g) (ideal (S (nitems g)))) as [Hlt|Hge].
+      - destruct (g_rehash_ok g1 (ideal (S (nitems g)))) as [l2 [Hr [Hc2 [Hlen2 [Hh2 Ho2]]]]].
+        + apply (inv_core g H).
+        + assumption.
+        + simpl. unfold RegistryModel.ideal. lia.
+        + unfold RegistryModel.ideal. lia.
+        + exists l2. split; [exact Hr|]. split; [assumption|]. split; [exact Hh2|]. split; [exact Ho2|].
+          rewrite Hlen2. exact Hid.
+      - exists (slots g). split; [reflexivity|]. split; [apply (inv_core g H)|]. split; [tauto|]. split; [reflexivity|].
+        unfold nslots, RegistryModel.ideal in Hge. lia. }
+    destruct Hrm as [l2 [Hr [Hc2 [Hh2 [Ho2 Hlen2]]]]]. rewrite Hr.
+    change (nslots (set_slots g1 l2)) with (length l2). change (slots (set_slots g1 l2)) with l2.
+    destruct (Nat.eqb_spec (length l2) 0) as [|_]; [lia|].
+    destruct (insert_absent_spec N gentry N.eqb ptr swap (fun old _ => old) N.eqb_eq swap_le swap_ge
+                (fun q => home q (length l2)) l2 (mkE p r false) Hc2) as [l3 [Hins [Hc3 [Hlen3 [Hh3 Ho3]]]]].
+    - apply home_lt. lia.
+    - lia.
+    - apply HAbsent_Absent. intros e He. apply Hfresh. apply Hh2. assumption.
+    - unfold rh_insert. cbn [ptr] in Hins. rewrite Hins.
+      set (g3 := log (set_slots (set_slots g1 l2) l3) ev).
+      exists g3. split; [reflexivity|]. split; [|split; [reflexivity|split; [reflexivity|split; [reflexivity|]]]].
+      + apply (Inv_alloc g g3 p r ev l2 l3 Hi Hnp); auto; try reflexivity.
+        * unfold Core. rewrite Hlen3. exact Hc3.
+        * lia.
+      + intros x. simpl. rewrite Hh3, Hh2. tauto.
+  Qed.
+
+  Local Notation spawn_set' := (spawn_set hashf swap primes num den).
+
+  (* GC_Set called from a destructor: registers the object (unless the run leaves the model's
+     scope, which is only flagged), keeps the invariant, adds no owned address *)
+  Lemma spawn_set_ok g pr : Inv g -> ~ In (fst pr) olist ->
+    exists g', spawn_set' g pr = Some g' /\ Inv g' /\ Le g' g /\ length (pending g') = length (pending g).
+  Proof.
+    intros Hi Hno. destruct pr as [p r]. simpl in Hno. unfold spawn_set.
+    destruct (running g); cbn [negb].
+    2: { exists g. split; [reflexivity|]. split; [assumption|split; [apply Le_refl|reflexivity]]. }
+    destruct (is_reg (slots g) p || is_pending p (pending g)) eqn:Hbusy.
+    { exists (log g EvViol). split; [reflexivity|]. split; [apply Inv_log_viol; assumption|].
+      split; [intros a _ Ha; exact Ha|reflexivity]. }
+    apply orb_false_iff in Hbusy. destruct Hbusy as [Hr Hp].
+    assert (Hnp : ~ In (Some p) (pending g)).
+    { intros Hin. apply in_is_pending in Hin. congruence. }
+    destruct (gc_register_ok g p r (EvSpawn p r) Hi (is_reg_false _ _ Hr) Hnp (or_intror eq_refl))
+      as [g3 [H3 [Hi3 [Hp3 [_ [_ Hh3]]]]]].
+    rewrite H3.
+    assert (Hle : Le g3 g).
+    { apply Le_sub.
+      - intros e He. apply Hh3 in He. destruct He as [He| ->]; [left; assumption|right; exact Hno].
+      - rewrite Hp3. auto. }
+    assert (Hfin : forall g4, g4 = g3 \/ g4 = log g3 EvViol ->
+              Inv g4 /\ Le g4 g /\ length (pending g4) = length (pending g)).
+    { intros g4 [-> | ->].
+      - split; [assumption|split; [assumption|rewrite Hp3; reflexivity]].
+      - split; [apply Inv_log_viol; assumption|]. split; [|simpl; rewrite Hp3; reflexivity].
+        intros a Ha Hl. apply Hle; assumption. }
+    destruct (pending g3); [destruct (mitems g3 <? nitems g3)|]; eexists; (split; [reflexivity|]); apply Hfin; auto.
+  Qed.
+
+  Lemma fold_spawn_ok : forall ps g, Inv g -> (forall pr, In pr ps -> ~ In (fst pr) olist) ->
+    exists g', fold_left (fun og pr => match og with Some g1 => spawn_set' g1 pr | None => None end) ps (Some g) = Some g'
+               /\ Inv g' /\ Le g' g /\ length (pending g') = length (pending g).
+  Proof.
+    induction ps as [|pr ps IH]; intros g Hi Hps; simpl.
+    - exists g. split; [reflexivity|]. split; [assumption|split; [apply Le_refl|reflexivity]].
+    - destruct (spawn_set_ok g pr Hi (Hps pr (or_introl eq_refl))) as [g1 [H1 [Hi1 [Hl1 Hp1]]]]. rewrite H1.
+      destruct (IH g1 Hi1) as [g2 [H2 [Hi2 [Hl2 Hp2]]]]; [intros; apply Hps; right; assumption|].
+      exists g2. split; [exact H2|]. split; [assumption|split; [eapply Le_trans; eauto|congruence]].
+  Qed.
+
+  (* ---------------------------------------------------------------- removal, nested *)
+  Local Notation gc_rem' := (gc_rem hashf swap primes num den owns spawns rem_fin).
+
+  Definition rem_good (f : nat) : Prop := forall g p, Inv g -> measureO g + extra p < f ->
+    exists g', gc_rem' f g p = Some g' /\ Inv g' /\ Le g' g /\
+               length (pending g') = length (pending g).
+
+  Lemma extra_in p : In p olist -> extra p = 0.
+  Proof. intros H. unfold extra. destruct (in_dec N.eq_dec p olist); [reflexivity|contradiction]. Qed.
+
+  Lemma fold_rem_ok f : rem_good f -> forall ts g, (forall t, In t ts -> In t olist) -> Inv g -> measureO g < f ->
+    exists g', fold_left (fun og t => match og with Some g1 => gc_rem' f g1 t | None => None end) ts (Some g) = Some g'
+               /\ Inv g' /\ Le g' g /\ length (pending g') = length (pending g).
+  Proof.
+    intros Hg. induction ts as [|t ts IH]; intros g Hts Hi Hm; simpl.
+    - exists g. split; [reflexivity|]. split; [assumption|split; [apply Le_refl|reflexivity]].
+    - destruct (Hg g t Hi) as [g1 [H1 [Hi1 [Hl1 Hp1]]]].
+      { rewrite (extra_in t (Hts t (or_introl eq_refl))). lia. }
+      rewrite H1. pose proof (Le_measure _ _ Hl1).
+      destruct (IH g1) as [g2 [H2 [Hi2 [Hl2 Hp2]]]]; auto; [intros; apply Hts; right; assumption|lia|].
+      exists g2. split; [exact H2|]. split; [assumption|split; [eapply Le_trans; eauto|congruence]].
+  Qed.
+
+  Lemma finalise_ok f : rem_good f -> forall g q, Inv g -> measureO g < f ->
+    exists g', finalise_with hashf swap primes num den owns spawns (gc_rem' f) g q = Some g' /\ Inv g' /\ Le g' g /\
                length (pending g') = length (pending g).
   Proof.
     intros Hg g q Hi Hm. unfold finalise_with.
-    apply (fold_rem_ok f Hg (owns q) (log g (EvFin q))); [apply Inv_log_fin; assumption|exact Hm].
+    destruct (fold_rem_ok f Hg (owns q) (log g (EvFin q))) as [g1 [H1 [Hi1 [Hl1 Hp1]]]].
+    - intros t Ht. eapply owns_olist; eauto.
+    - apply Inv_log_fin; assumption.
+    - exact Hm.
+    - rewrite H1. destruct (fold_spawn_ok (spawns q) g1 Hi1) as [g2 [H2 [Hi2 [Hl2 Hp2]]]].
+      + intros [p r] Hin. simpl. eapply spawns_olist; eauto.
+      + exists g2. split; [exact H2|]. split; [assumption|]. split; [|simpl in *; congruence].
+        eapply Le_trans; [exact Hl2|]. intros a Ha Hl. apply Hl1; assumption.
   Qed.
 
   (* GC_Rem_Ptr, after the event has been logged *)
@@ -665,7 +891,7 @@ Section RP.
     if nslots g =? 0 then Some g else
     let hit := is_pending p (pending g) in
     let g0 := set_pending g (null_out p (pending g)) in
-    if hit && rem_fin then finalise_with owns (gc_rem' f) g0 p
+    if hit && rem_fin then finalise_with hashf swap primes num den owns spawns (gc_rem' f) g0 p
     else
       match rh_find (slots g0) (home p (nslots g0)) p with
       | None => None
@@ -673,7 +899,8 @@ Section RP.
       | Some (Some i) =>
         match rh_delete (slots g0) i with
         | None => None
-        | Some sl => finalise_with owns (gc_rem' f) (set_nitems (set_slots g0 sl) (pred (nitems g0))) p
+        | Some sl => finalise_with hashf swap primes num den owns spawns (gc_rem' f)
+                       (set_nitems (set_slots g0 sl) (pred (nitems g0))) p
         end
       end.
 
@@ -688,29 +915,38 @@ Section RP.
     end.
   Proof. reflexivity. Qed.
 
-  Lemma rem_ptr_ok f : rem_good f -> forall g p, Inv g -> measure g < S f ->
-    exists g2, rem_ptr f (log g (EvRem p)) p = Some g2 /\ Inv g2 /\ measure g2 <= measure g /\
+  Lemma rem_ptr_ok f : rem_good f -> forall g p, Inv g -> measureO g + extra p < S f ->
+    exists g2, rem_ptr f (log g (EvRem p)) p = Some g2 /\ Inv g2 /\ Le g2 g /\
                length (pending g2) = length (pending g).
   Proof.
     intros Hg g p Hi Hm. pose proof Hi as [H Hcl]. unfold rem_ptr.
     change (nslots (log g (EvRem p))) with (nslots g).
     change (pending (log g (EvRem p))) with (pending g).
     destruct (Nat.eqb_spec (nslots g) 0) as [Hz|Hnz].
-    - exists (log g (EvRem p)). split; [reflexivity|]. split; [|split; [unfold measure; simpl; lia|reflexivity]].
+    - exists (log g (EvRem p)). split; [reflexivity|]. split; [|split; [intros a _ Ha; exact Ha|reflexivity]].
       apply (Inv_rem_absent g _ p Hi); try reflexivity; [|auto].
       intros e [i [h Hat]]. pose proof (at_some_lt _ _ _ _ Hat). unfold nslots in Hz. lia.
     - set (g0 := set_pending (log g (EvRem p)) (null_out p (pending g))).
-      assert (Hm0 : measure g0 <= measure g) by (unfold measure; simpl; pose proof (null_out_cnt p (pending g)); lia).
+      assert (Hl0 : Le g0 g).
+      { apply Le_sub; [intros e He; left; exact He|]. intros q. simpl. apply null_out_in. }
       assert (Hlen0 : length (pending g0) = length (pending g)) by (simpl; unfold null_out; apply map_length).
       assert (Habs0 : HAbsent (slots g) p -> Inv g0).
       { intros Ha. apply (Inv_rem_absent g g0 p Hi Ha); try reflexivity. intros q. simpl. apply null_out_in. }
+      (* once p is gone from table and pending list, one owned address less is live *)
+      assert (Hdec : forall g1, Le g1 g -> live g p = true -> live g1 p = false -> measureO g1 < f).
+      { intros g1 Hl1 Hlp Hlp1. unfold extra in Hm. destruct (in_dec N.eq_dec p olist) as [Hin|Hnin].
+        - pose proof (Lt_measure g1 g p Hl1 Hin Hlp Hlp1). lia.
+        - pose proof (Le_measure _ _ Hl1). lia. }
       cbv zeta. destruct (is_pending p (pending g) && rem_fin) eqn:Hhit.
       + apply andb_prop in Hhit. destruct Hhit as [Hhit _].
         assert (Ha : HAbsent (slots g) p) by (apply (inv_pend g H); apply is_pending_in; assumption).
-        assert (Hm1 : measure g0 < f).
-        { unfold measure; simpl. pose proof (null_out_cnt_hit p (pending g) Hhit). unfold measure in Hm. lia. }
-        destruct (finalise_ok f Hg g0 p (Habs0 Ha) Hm1) as [g2 [H2 [Hi2 [Hm2 Hp2]]]].
-        exists g2. split; [exact H2|]. split; [assumption|split; [lia|congruence]].
+        assert (Hm1 : measureO g0 < f).
+        { apply Hdec; [exact Hl0|unfold live; rewrite Hhit; apply orb_true_r|].
+          unfold live. simpl. rewrite null_out_not_pending.
+          destruct (is_reg (slots g) p) eqn:Hr; [|reflexivity].
+          apply is_reg_spec in Hr. destruct Hr as [e [He Hpe]]. exfalso. apply (Ha e He Hpe). }
+        destruct (finalise_ok f Hg g0 p (Habs0 Ha) Hm1) as [g2 [H2 [Hi2 [Hl2 Hp2]]]].
+        exists g2. split; [exact H2|]. split; [assumption|split; [eapply Le_trans; eauto|congruence]].
       + change (slots g0) with (slots g). change (nslots g0) with (nslots g). change (nitems g0) with (nitems g).
         destruct (find_spec N gentry N.eqb ptr N.eqb_eq (fun q => home q (length (slots g))) (slots g) p (inv_core g H))
           as [r [Hr Hres]].
@@ -728,13 +964,17 @@ Section RP.
             - unfold Core. rewrite Hlen1. exact Hc1.
             - intros x. rewrite Hh1, Hpe. tauto.
             - intros q. simpl. apply null_out_in. }
-          assert (Hm1 : measure g1 < f).
-          { unfold measure; simpl. pose proof (null_out_cnt p (pending g)). pose proof (inv_count g H).
-            unfold measure in Hm. lia. }
-          destruct (finalise_ok f Hg g1 p Hi1 Hm1) as [g2 [H2 [Hi2 [Hm2 Hp2]]]].
-          exists g2. split; [exact H2|]. split; [assumption|]. split; [|rewrite Hp2; exact Hlen0].
-          assert (measure g1 <= measure g); [|lia].
-          unfold measure; simpl. pose proof (null_out_cnt p (pending g)). lia.
+          assert (Hl1 : Le g1 g).
+          { apply Le_sub; [intros x Hx; left; apply Hh1 in Hx; tauto|]. intros q. simpl. apply null_out_in. }
+          assert (Hm1 : measureO g1 < f).
+          { apply Hdec; [exact Hl1| |].
+            - unfold live. apply orb_true_iff. left. apply is_reg_spec. exists e. split; [exists i, (home p (length (slots g))); exact Hat|exact Hpe].
+            - unfold live. simpl. rewrite null_out_not_pending.
+              destruct (is_reg l1 p) eqn:Hr1; [|reflexivity].
+              apply is_reg_spec in Hr1. destruct Hr1 as [x [Hx Hpx]]. apply Hh1 in Hx. destruct Hx as [_ Hne].
+              exfalso. apply Hne. congruence. }
+          destruct (finalise_ok f Hg g1 p Hi1 Hm1) as [g2 [H2 [Hi2 [Hl2 Hp2]]]].
+          exists g2. split; [exact H2|]. split; [assumption|]. split; [eapply Le_trans; eauto|rewrite Hp2; exact Hlen0].
         * exists g0. split; [reflexivity|]. split; [|split; assumption]. apply Habs0. apply HAbsent_Absent. assumption.
   Qed.
 
@@ -742,38 +982,41 @@ Section RP.
   Proof.
     induction f as [|f IH]; intros g p Hi Hm; [lia|]. rewrite gc_rem_S.
     destruct (running g); cbn [negb].
-    - destruct (rem_ptr_ok f IH g p Hi Hm) as [g1 [H1 [Hi1 [Hm1 Hp1]]]]. rewrite H1.
-      destruct (resize_less_ok g1 Hi1) as [l' [Hr Hi2]]. rewrite Hr.
+    - destruct (rem_ptr_ok f IH g p Hi Hm) as [g1 [H1 [Hi1 [Hl1 Hp1]]]]. rewrite H1.
+      destruct (resize_less_ok g1 Hi1) as [l' [Hr [Hi2 Hh2]]]. rewrite Hr.
       eexists. split; [reflexivity|]. split; [apply Inv_new_mitems; assumption|].
-      split; [unfold measure in *; simpl; lia|exact Hp1].
-    - exists g. split; [reflexivity|]. split; [assumption|split; [lia|reflexivity]].
+      split; [|exact Hp1]. eapply Le_trans; [|exact Hl1].
+      apply Le_sub; [|auto]. intros e He. left. simpl in He. apply Hh2. exact He.
+    - exists g. split; [reflexivity|]. split; [assumption|split; [apply Le_refl|reflexivity]].
   Qed.
 
   (* ---------------------------------------------------------------- sweep *)
-  Local Notation fin_loop' := (fin_loop hashf swap primes num den owns rem_fin null_first).
+  Local Notation fin_loop' := (fin_loop hashf swap primes num den owns spawns rem_fin null_first).
 
   Lemma upd_opt_length k pl : length (upd_opt k pl) = length pl.
   Proof. revert k. induction pl as [|x pl IH]; intros [|k]; simpl; auto. Qed.
 
-  Lemma fin_loop_ok d : rem_good d -> forall c k g, Inv g -> measure g < d ->
-    exists g', fin_loop' c k d g = Some g' /\ Inv g' /\ measure g' <= measure g /\
+  Lemma fin_loop_ok d : rem_good d -> forall c k g, Inv g -> measureO g < d ->
+    exists g', fin_loop' c k d g = Some g' /\ Inv g' /\ Le g' g /\
                length (pending g') = length (pending g).
   Proof.
     intros Hg. induction c as [|c IH]; intros k g Hi Hm; cbn [fin_loop].
-    - exists g. split; [reflexivity|]. split; [assumption|split; [lia|reflexivity]].
+    - exists g. split; [reflexivity|]. split; [assumption|split; [apply Le_refl|reflexivity]].
     - destruct (nth k (pending g) None) as [q|].
       + set (g1 := if null_first then set_pending g (upd_opt k (pending g)) else g).
-        assert (H1 : Inv g1 /\ measure g1 <= measure g /\ length (pending g1) = length (pending g)).
-        { unfold g1. destruct null_first; [|split; [assumption|split; [lia|reflexivity]]].
+        assert (H1 : Inv g1 /\ Le g1 g /\ length (pending g1) = length (pending g)).
+        { unfold g1. destruct null_first; [|split; [assumption|split; [apply Le_refl|reflexivity]]].
           split; [|split].
           - apply (Inv_fields g _ Hi); try reflexivity. intros q'. simpl. apply upd_opt_in.
-          - unfold measure; simpl. pose proof (upd_opt_cnt k (pending g)). lia.
+          - apply Le_sub; [intros e He; left; exact He|]. intros q'. simpl. apply upd_opt_in.
           - simpl. apply upd_opt_length. }
-        destruct H1 as [Hi1 [Hm1 Hp1]].
+        destruct H1 as [Hi1 [Hl1 Hp1]]. pose proof (Le_measure _ _ Hl1).
         unfold finalise.
-        destruct (finalise_ok d Hg g1 q Hi1 ltac:(lia)) as [g2 [H2 [Hi2 [Hm2 Hp2]]]]. rewrite H2.
-        destruct (IH (S k) g2 Hi2 ltac:(lia)) as [g3 [H3 [Hi3 [Hm3 Hp3]]]].
-        exists g3. split; [exact H3|]. split; [assumption|split; [lia|congruence]].
+        destruct (finalise_ok d Hg g1 q Hi1 ltac:(lia)) as [g2 [H2 [Hi2 [Hl2 Hp2]]]]. rewrite H2.
+        pose proof (Le_measure _ _ Hl2).
+        destruct (IH (S k) g2 Hi2 ltac:(lia)) as [g3 [H3 [Hi3 [Hl3 Hp3]]]].
+        exists g3. split; [exact H3|]. split; [assumption|]. split; [|congruence].
+        eapply Le_trans; [exact Hl3|]. eapply Le_trans; eauto.
       + apply IH; assumption.
   Qed.
 
@@ -786,9 +1029,6 @@ Section RP.
   Proof.
     unfold reclaim_evs. rewrite led_reclaim_gen. rewrite <- in_rev. tauto.
   Qed.
-
-  Lemma cnt_pend_of rm : cnt (pend_of rm) = length rm.
-  Proof. unfold cnt, pend_of. induction rm; simpl; auto. Qed.
 
   (* the state after the compaction and mark-clearing loops *)
   Lemma Inv_compacted g l' rm g1 : InvM g -> Quiet g ->
@@ -824,7 +1064,7 @@ Section RP.
         apply Hrm. auto.
   Qed.
 
-  Local Notation gc_sweep' := (gc_sweep hashf swap primes num den owns rem_fin null_first).
+  Local Notation gc_sweep' := (gc_sweep hashf swap primes num den owns spawns rem_fin null_first).
 
   (* GC_Sweep from any marking: total, ends with the invariant and an empty pending list *)
   Theorem gc_sweep_ok g : InvM g -> Quiet g -> exists g', gc_sweep' g = Some g' /\ Inv g' /\ Quiet g'.
@@ -840,19 +1080,31 @@ Section RP.
       set (g1 := mkGC (clear_marks l') (nitems g - length rm) (mitems g) (minptr g) (maxptr g) (running g)
                       (pend_of rm) (reclaim_evs rm ++ evs g)).
       assert (Hi1 : Inv g1) by (apply (Inv_compacted g l' rm g1 H Hq); auto).
-      destruct (resize_less_ok g1 Hi1) as [l2 [Hr Hi2]]. rewrite Hr.
-      assert (Hm : measure (new_mitems (set_slots g1 l2)) < depth g).
-      { unfold measure, depth. simpl. rewrite cnt_pend_of. lia. }
+      destruct (resize_less_ok g1 Hi1) as [l2 [Hr [Hi2 Hh2]]]. rewrite Hr.
+      assert (Hm : measureO (new_mitems (set_slots g1 l2)) < depth g).
+      { pose proof (measureO_bound g H) as Hb. rewrite Hq in Hb. simpl in Hb.
+        assert (Hle : Le (new_mitems (set_slots g1 l2)) g); [|pose proof (Le_measure _ _ Hle); unfold depth; lia].
+        intros a Ha Hl. unfold live in *. simpl in Hl. apply orb_true_iff. left.
+        apply orb_true_iff in Hl. apply is_reg_spec. destruct Hl as [Hl|Hl].
+        - apply is_reg_spec in Hl. destruct Hl as [e [He Hpe]].
+          destruct Hi2 as [Hm2 _]. pose proof (inv_led _ Hm2 a (root e)) as L2.
+          destruct Hi1 as [Hm1 _]. pose proof (inv_led _ Hm1 a (root e)) as L1.
+          assert (R2 : Reg (set_slots g1 l2) a (root e)) by (exists e; auto).
+          apply L2 in R2. simpl in R2. apply L1 in R2. destruct R2 as [x [Hx [Hpx _]]].
+          simpl in Hx. destruct (PW_holds _ _ _ (PW_clear_marks l') Hx) as [y [Hy [Hpy _]]].
+          apply Hh' in Hy. exists y. split; [tauto|congruence].
+        - apply is_pending_in in Hl. unfold pend_of in Hl. apply in_map_iff in Hl. destruct Hl as [y [Hy Hin]].
+          injection Hy as <-. apply Hrm' in Hin. exists y. tauto. }
       destruct (fin_loop_ok (depth g) (gc_rem_ok (depth g)) (length (pend_of rm)) 0 (new_mitems (set_slots g1 l2))
                   (Inv_new_mitems _ Hi2) Hm) as [g3 [H3 [Hi3 _]]].
       rewrite H3. exists (set_pending g3 []). split; [reflexivity|]. split; [|reflexivity].
       apply (Inv_fields g3 _ Hi3); try reflexivity. intros q [].
   Qed.
 
-  Local Notation collect' := (collect hashf swap primes num den owns rem_fin null_first).
-  Local Notation gc_set' := (gc_set hashf swap primes num den owns rem_fin null_first).
-  Local Notation gc_step' := (gc_step hashf swap primes num den owns rem_fin null_first).
-  Local Notation gc_run' := (gc_run hashf swap primes num den owns rem_fin null_first).
+  Local Notation collect' := (collect hashf swap primes num den owns spawns rem_fin null_first).
+  Local Notation gc_set' := (gc_set hashf swap primes num den owns spawns rem_fin null_first).
+  Local Notation gc_step' := (gc_step hashf swap primes num den owns spawns rem_fin null_first).
+  Local Notation gc_run' := (gc_run hashf swap primes num den owns spawns rem_fin null_first).
 
   (* GC_Mark; GC_Sweep *)
   Lemma collect_ok g ws : Inv g -> Quiet g -> exists g', collect' g ws = (g', OOk) /\ Inv g' /\ Quiet g'.
@@ -867,71 +1119,16 @@ Section RP.
       + rewrite Hs. exists g2. auto.
   Qed.
 
-  (* a fresh address has been inserted *)
-  Lemma Inv_alloc g g' p r l2 l3 : Inv g -> Quiet g -> Core l3 ->
-    (forall x, Holds l2 x <-> Holds (slots g) x) -> occupied l2 = occupied (slots g) ->
-    (forall x, Holds l3 x <-> Holds l2 x \/ x = mkE p r false) -> occupied l3 = S (occupied l2) ->
-    S (nitems g) < length l3 ->
-    slots g' = l3 -> nitems g' = S (nitems g) ->
-    minptr g' = N.min p (minptr g) -> maxptr g' = N.max p (maxptr g) ->
-    pending g' = [] -> evs g' = EvAlloc p r :: evs g -> Inv g'.
-  Proof.
-    intros [H Hcl] Hq Hc H2 Ho2 H3 Ho3 Hroom Hs Hn Hlo Hhi Hp He.
-    pose proof (inv_count g H) as Hcnt. unfold Inv, Clear. rewrite Hs. split; [constructor|].
-    - rewrite Hs. assumption.
-    - rewrite Hs, Hn. lia.
-    - unfold nslots. rewrite Hs, Hn. lia.
-    - rewrite Hs, Hlo, Hhi. intros e He'. apply H3 in He'. destruct He' as [He'| ->]; [|simpl; lia].
-      apply H2 in He'. pose proof (inv_bounds g H e He'). lia.
-    - rewrite Hp. intros q [].
-    - unfold Reg. rewrite Hs, He. intros q s. cbn [led]. rewrite <- (inv_led g H q s). unfold Reg, Regs. split.
-      + intros [e [He' [Hpe Hre]]]. apply H3 in He'. destruct He' as [He'| ->].
-        * right. exists e. split; [apply H2; assumption|auto].
-        * left. simpl in *. auto.
-      + intros [[-> ->]|[e [He' Hpr]]].
-        * exists (mkE p r false). split; [apply H3; right; reflexivity|auto].
-        * exists e. split; [apply H3; left; apply H2; assumption|assumption].
-    - intros e He'. apply H3 in He'. destruct He' as [He'| ->]; [|reflexivity]. apply Hcl. apply H2. assumption.
-  Qed.
-
   (* GC_Set of an address that is not registered *)
   Theorem gc_set_ok g p r ws : Inv g -> Quiet g -> (running g = true -> HAbsent (slots g) p) ->
     exists g', gc_set' g p r ws = (g', OOk) /\ Inv g' /\ Quiet g'.
   Proof.
-    intros Hi Hq Hfresh. pose proof Hi as [H Hcl]. unfold gc_set.
+    intros Hi Hq Hfresh. unfold gc_set.
     destruct (running g) eqn:Hrun; cbn [negb]; [|exists g; auto].
-    specialize (Hfresh eq_refl).
-    set (g1 := set_bounds (set_nitems g (S (nitems g))) (N.min p (minptr g)) (N.max p (maxptr g))).
-    pose proof (inv_count g H) as Hcnt. pose proof (ideal_gt (S (nitems g))) as Hid.
-    assert (Hrm : exists l2, resize_more hashf swap primes num den g1 = Some (set_slots g1 l2) /\ Core l2 /\
-              (forall x, Holds l2 x <-> Holds (slots g) x) /\ occupied l2 = occupied (slots g) /\
-              S (nitems g) < length l2).
-    { unfold resize_more. change (nitems g1) with (S (nitems g)). change (nslots g1) with (nslots g).
-      destruct (Nat.ltb_spec (nslots g) (ideal (S (nitems g)))) as [Hlt|Hge].
-      - destruct (g_rehash_ok g1 (ideal (S (nitems g)))) as [l2 [Hr [Hc2 [Hlen2 [Hh2 Ho2]]]]].
-        + apply (inv_core g H).
-        + assumption.
-        + simpl. unfold RegistryModel.ideal. lia.
-        + unfold RegistryModel.ideal. lia.
-        + exists l2. split; [exact Hr|]. split; [assumption|]. split; [exact Hh2|]. split; [exact Ho2|].
-          rewrite Hlen2. exact Hid.
-      - exists (slots g). split; [reflexivity|]. split; [apply (inv_core g H)|]. split; [tauto|]. split; [reflexivity|].
-        unfold nslots, RegistryModel.ideal in Hge. lia. }
-    destruct Hrm as [l2 [Hr [Hc2 [Hh2 [Ho2 Hlen2]]]]]. rewrite Hr.
-    change (nslots (set_slots g1 l2)) with (length l2). change (slots (set_slots g1 l2)) with l2.
-    destruct (Nat.eqb_spec (length l2) 0) as [|_]; [lia|].
-    destruct (insert_absent_spec N gentry N.eqb ptr swap (fun old _ => old) N.eqb_eq swap_le swap_ge
-                (fun q => home q (length l2)) l2 (mkE p r false) Hc2) as [l3 [Hins [Hc3 [Hlen3 [Hh3 Ho3]]]]].
-    - apply home_lt. lia.
-    - lia.
-    - apply HAbsent_Absent. intros e He. apply Hfresh. apply Hh2. assumption.
-    - unfold rh_insert. cbn [ptr] in Hins. rewrite Hins.
-      set (g3 := log (set_slots (set_slots g1 l2) l3) (EvAlloc p r)).
-      assert (Hi3 : Inv g3).
-      { apply (Inv_alloc g g3 p r l2 l3 Hi Hq); auto; try reflexivity.
-        - unfold Core. rewrite Hlen3. exact Hc3.
-        - lia. }
-      assert (Hq3 : Quiet g3) by exact Hq.
+    destruct (gc_register_ok g p r (EvAlloc p r) Hi (Hfresh eq_refl)) as [g3 [H3 [Hi3 [Hp3 _]]]].
+    - rewrite Hq. intros [].
+    - left. reflexivity.
+    - rewrite H3. assert (Hq3 : Quiet g3) by (unfold Quiet; rewrite Hp3; exact Hq).
       destruct (mitems g3 <? nitems g3).
       + apply collect_ok; assumption.
       + exists g3. auto.
@@ -966,18 +1163,19 @@ Section RP.
       (forall p, o = OMem p -> out = OBool true <-> exists s, Reg g p s).
   Proof.
     intros Hi Hq Ha. pose proof Hi as [H Hcl].
-    assert (Hm : measure g < depth g).
-    { unfold measure, depth, cnt. rewrite Hq. simpl. lia. }
+    assert (Hm0 : measureO g + 1 < depth g).
+    { pose proof (measureO_bound g H) as Hb. rewrite Hq in Hb. simpl in Hb. unfold depth. rewrite Hq. simpl. lia. }
+    assert (Hm : forall p, measureO g + extra p < depth g) by (intros p0; unfold extra; destruct (in_dec N.eq_dec p0 olist); lia).
     destruct o as [p r ws|p|p|ws| | | |p]; cbn [gc_step].
     - destruct (gc_set_ok g p r ws Hi Hq Ha) as [g' [Hs [Hi' Hq']]]. rewrite Hs.
       exists g', OOk. split; [reflexivity|]. split; [discriminate|]. split; [discriminate|].
       split; [assumption|]. split; [assumption|]. intros p0 Heq; discriminate.
-    - destruct (gc_rem_ok (depth g) g p Hi Hm) as [g' [Hs [Hi' [_ Hp']]]]. rewrite Hs.
+    - destruct (gc_rem_ok (depth g) g p Hi (Hm p)) as [g' [Hs [Hi' [_ Hp']]]]. rewrite Hs.
       exists g', OOk. split; [reflexivity|]. split; [discriminate|]. split; [discriminate|].
       split; [assumption|]. split; [|intros p0 Heq; discriminate].
       unfold Quiet in *. rewrite Hq in Hp'. destruct (pending g'); [reflexivity|discriminate].
     - unfold finalise.
-      destruct (finalise_ok (depth g) (gc_rem_ok (depth g)) g p Hi Hm) as [g' [Hs [Hi' [_ Hp']]]]. rewrite Hs.
+      destruct (finalise_ok (depth g) (gc_rem_ok (depth g)) g p Hi ltac:(lia)) as [g' [Hs [Hi' [_ Hp']]]]. rewrite Hs.
       exists g', OOk. split; [reflexivity|]. split; [discriminate|]. split; [discriminate|].
       split; [assumption|]. split; [|intros p0 Heq; discriminate].
       unfold Quiet in *. rewrite Hq in Hp'. destruct (pending g'); [reflexivity|discriminate].
@@ -1022,40 +1220,55 @@ Proof. unfold gc_swap. intros H. bdestr; lia. Qed.
 Lemma gc_swap_ge j p : gc_swap j p = false -> j <= p.
 Proof. unfold gc_swap. intros H. bdestr; lia. Qed.
 
-Definition Gstep (hashf : N -> N) (owns : N -> list N) (rf nf : bool) :=
-  gc_step hashf gc_swap gc_primes gc_load_num gc_load_den owns rf nf.
-Definition Grun (hashf : N -> N) (owns : N -> list N) (rf nf : bool) :=
-  gc_run hashf gc_swap gc_primes gc_load_num gc_load_den owns rf nf.
-Definition Gadm (hashf : N -> N) (owns : N -> list N) (rf nf : bool) :=
-  adm_run hashf gc_swap gc_primes gc_load_num gc_load_den owns rf nf.
-Definition Gsweep (hashf : N -> N) (owns : N -> list N) (rf nf : bool) :=
-  gc_sweep hashf gc_swap gc_primes gc_load_num gc_load_den owns rf nf.
-Definition Grem (hashf : N -> N) (owns : N -> list N) (rf : bool) :=
-  gc_rem hashf gc_swap gc_primes gc_load_num gc_load_den owns rf.
+(* what destructors do: the addresses they delete, the (address, root flag) they allocate
+   afterwards, and a finite list bounding what may be deleted *)
+Record dtors := mkD { d_owns : N -> list N; d_spawns : N -> list (N * bool); d_olist : list N }.
 
-Theorem registry_step_thm : forall hashf owns rf nf g o,
+(* no destructor allocates an address that a destructor may delete *)
+Definition dtors_ok (d : dtors) : Prop :=
+  NoDup (d_olist d) /\ (forall q t, In t (d_owns d q) -> In t (d_olist d)) /\
+  (forall q p r, In (p, r) (d_spawns d q) -> ~ In p (d_olist d)).
+
+Definition Gstep (hashf : N -> N) (d : dtors) (rf nf : bool) :=
+  gc_step hashf gc_swap gc_primes gc_load_num gc_load_den (d_owns d) (d_spawns d) rf nf.
+Definition Grun (hashf : N -> N) (d : dtors) (rf nf : bool) :=
+  gc_run hashf gc_swap gc_primes gc_load_num gc_load_den (d_owns d) (d_spawns d) rf nf.
+Definition Gadm (hashf : N -> N) (d : dtors) (rf nf : bool) :=
+  adm_run hashf gc_swap gc_primes gc_load_num gc_load_den (d_owns d) (d_spawns d) rf nf.
+Definition Gsweep (hashf : N -> N) (d : dtors) (rf nf : bool) :=
+  gc_sweep hashf gc_swap gc_primes gc_load_num gc_load_den (d_owns d) (d_spawns d) rf nf.
+Definition Grem (hashf : N -> N) (d : dtors) (rf : bool) :=
+  gc_rem hashf gc_swap gc_primes gc_load_num gc_load_den (d_owns d) (d_spawns d) rf.
+Definition Gspawn (hashf : N -> N) :=
+  spawn_set hashf gc_swap gc_primes gc_load_num gc_load_den.
+
+Theorem registry_step_thm : forall hashf d rf nf g o, dtors_ok d ->
   Inv hashf g -> Quiet g -> admissible g o ->
-  exists g' out, Gstep hashf owns rf nf g o = (g', out) /\ out <> OFuel /\ out <> OCrash /\
+  exists g' out, Gstep hashf d rf nf g o = (g', out) /\ out <> OFuel /\ out <> OCrash /\
     Inv hashf g' /\ Quiet g' /\
     (forall p, o = OMem p -> out = OBool true <-> exists s, Reg g p s).
 Proof.
-  intros. apply gc_step_ok; auto using gc_swap_le, gc_swap_ge, gc_ideal_gt.
+  intros hashf d rf nf g o [H1 [H2 H3]] Hi Hq Ha.
+  apply (gc_step_ok hashf gc_swap gc_primes gc_load_num gc_load_den (d_owns d) (d_spawns d) rf nf
+           gc_swap_le gc_swap_ge gc_ideal_gt (d_olist d) H1 H2 H3); assumption.
 Qed.
 
-Theorem registry_history_thm : forall hashf owns rf nf ops,
-  Gadm hashf owns rf nf ops gc_init ->
-  Inv hashf (Grun hashf owns rf nf ops gc_init) /\ Quiet (Grun hashf owns rf nf ops gc_init).
+Theorem registry_history_thm : forall hashf d rf nf ops, dtors_ok d ->
+  Gadm hashf d rf nf ops gc_init ->
+  Inv hashf (Grun hashf d rf nf ops gc_init) /\ Quiet (Grun hashf d rf nf ops gc_init).
 Proof.
-  intros. destruct (Inv_init hashf). apply gc_run_ok; auto using gc_swap_le, gc_swap_ge, gc_ideal_gt.
+  intros hashf d rf nf ops [H1 [H2 H3]] Ha. destruct (Inv_init hashf).
+  apply (gc_run_ok hashf gc_swap gc_primes gc_load_num gc_load_den (d_owns d) (d_spawns d) rf nf
+           gc_swap_le gc_swap_ge gc_ideal_gt (d_olist d) H1 H2 H3); assumption.
 Qed.
 
 (* the property in one statement: after every admissible history the registry holds exactly
    what the ledger of the history says, each object once with its root flag, the count is
    right, lookups answer by the ledger, no mark bit is left, the address bounds enclose every
    entry, and the pending list is empty *)
-Theorem registry_is_ledger_thm : forall hashf owns rf nf ops,
-  Gadm hashf owns rf nf ops gc_init ->
-  let g := Grun hashf owns rf nf ops gc_init in
+Theorem registry_is_ledger_thm : forall hashf d rf nf ops, dtors_ok d ->
+  Gadm hashf d rf nf ops gc_init ->
+  let g := Grun hashf d rf nf ops gc_init in
   (forall q s, Reg g q s <-> led (evs g) q s) /\
   NoDup (map ptr (entries (slots g))) /\
   nitems g = length (entries (slots g)) /\
@@ -1064,7 +1277,7 @@ Theorem registry_is_ledger_thm : forall hashf owns rf nf ops,
   (forall e, In e (entries (slots g)) -> marked e = false /\ (minptr g <= ptr e <= maxptr g)%N) /\
   pending g = [].
 Proof.
-  intros hashf owns rf nf ops Ha g. destruct (registry_history_thm hashf owns rf nf ops Ha) as [[H Hcl] Hq].
+  intros hashf d rf nf ops Hd Ha g. destruct (registry_history_thm hashf d rf nf ops Hd Ha) as [[H Hcl] Hq].
   fold g in H, Hcl, Hq. destruct (Inv_nodup hashf g H) as [Hnd Hcnt].
   split; [apply (inv_led hashf g H)|]. split; [exact Hnd|]. split; [exact Hcnt|]. split; [apply (inv_room hashf g H)|].
   split; [|split; [|exact Hq]].
@@ -1090,22 +1303,59 @@ Proof.
   apply (sweep_loop_ok hashf); auto; [intros; lia|lia].
 Qed.
 
-Theorem sweep_total_thm : forall hashf owns rf nf g, InvM hashf g -> Quiet g ->
-  exists g', Gsweep hashf owns rf nf g = Some g' /\ Inv hashf g' /\ Quiet g'.
+Theorem sweep_total_thm : forall hashf d rf nf g, dtors_ok d -> InvM hashf g -> Quiet g ->
+  exists g', Gsweep hashf d rf nf g = Some g' /\ Inv hashf g' /\ Quiet g'.
 Proof.
-  intros. apply gc_sweep_ok; auto using gc_swap_le, gc_swap_ge, gc_ideal_gt.
+  intros hashf d rf nf g [H1 [H2 H3]] Hi Hq.
+  apply (gc_sweep_ok hashf gc_swap gc_primes gc_load_num gc_load_den (d_owns d) (d_spawns d) rf nf
+           gc_swap_le gc_swap_ge gc_ideal_gt (d_olist d) H1 H2 H3); assumption.
 Qed.
 
 (* GC_Rem in any state satisfying the invariant — in particular in the middle of a sweep's
    finaliser loop (pending list not empty) and from inside another removal: the nesting fuel
-   `nitems + live pending entries + 1` is enough, the invariant (ledger included) is kept *)
-Theorem removal_during_sweep_thm : forall hashf owns rf g p f,
-  Inv hashf g -> measure g < f ->
-  exists g', Grem hashf owns rf f g p = Some g' /\ Inv hashf g' /\ measure g' <= measure g /\
+   `depth` of the model (nitems + pending slots + 2) is enough, the invariant (ledger included)
+   is kept, whatever the destructors delete and allocate on the way *)
+Theorem removal_during_sweep_thm : forall hashf d rf g p f, dtors_ok d ->
+  Inv hashf g -> depth g <= f ->
+  exists g', Grem hashf d rf f g p = Some g' /\ Inv hashf g' /\
              length (pending g') = length (pending g).
 Proof.
-  intros hashf owns rf g p f Hi Hm.
-  apply (gc_rem_ok hashf gc_swap gc_primes gc_load_num gc_load_den owns rf gc_swap_le gc_swap_ge gc_ideal_gt f g p Hi Hm).
+  intros hashf d rf g p f [H1 [H2 H3]] Hi Hf.
+  destruct (gc_rem_ok hashf gc_swap gc_primes gc_load_num gc_load_den (d_owns d) (d_spawns d) rf
+              gc_swap_le gc_swap_ge gc_ideal_gt (d_olist d) H2 H3 f g p Hi) as [g' [Hr [Hi' [_ Hp']]]].
+  - destruct Hi as [Hm _]. pose proof (measureO_bound hashf (d_olist d) H1 g Hm) as Hb.
+    unfold depth in Hf. unfold extra. destruct (in_dec N.eq_dec p (d_olist d)); lia.
+  - exists g'. auto.
+Qed.
+
+(* GC_Set called from a destructor, in particular while a sweep is running (pending list not
+   empty): total, keeps the invariant — so the object is registered with its root flag, counted,
+   inside [minptr, maxptr], found by mem — unless the run leaves the model's scope (address still
+   registered or pending; threshold crossed outside a sweep), which is flagged by EvViol *)
+Theorem allocation_during_sweep_thm : forall hashf d g p r, dtors_ok d ->
+  Inv hashf g -> ~ In p (d_olist d) ->
+  exists g', Gspawn hashf g (p, r) = Some g' /\ Inv hashf g' /\
+             length (pending g') = length (pending g) /\
+             (running g = true -> is_reg (slots g) p = false -> is_pending p (pending g) = false ->
+              Reg g' p r /\ nitems g' = S (nitems g) /\ hd EvViol (evs g') <> EvViol \/ pending g = []).
+Proof.
+  intros hashf d g p r [H1 [H2 H3]] Hi Hno.
+  destruct (spawn_set_ok hashf gc_swap gc_primes gc_load_num gc_load_den gc_swap_le gc_swap_ge gc_ideal_gt
+              (d_olist d) g (p, r) Hi Hno) as [g' [Hs [Hi' [_ Hp']]]].
+  exists g'. split; [exact Hs|]. split; [exact Hi'|]. split; [exact Hp'|].
+  intros Hrun Hr Hpd. unfold Gspawn, spawn_set in Hs. rewrite Hrun, Hr, Hpd in Hs. simpl in Hs.
+  destruct (gc_register_ok hashf gc_swap gc_primes gc_load_num gc_load_den gc_swap_le gc_swap_ge gc_ideal_gt
+              g p r (EvSpawn p r) Hi) as [g3 [H3' [Hi3 [Hp3 [_ [Hn3 Hh3]]]]]].
+  - apply is_reg_false. exact Hr.
+  - intros Hin. apply in_is_pending in Hin. congruence.
+  - right. reflexivity.
+  - rewrite H3' in Hs. destruct (pending g) eqn:Hpg; [right; reflexivity|left].
+    rewrite Hp3 in Hs. injection Hs as <-. split; [|split; [exact Hn3|]].
+    + exists (mkE p r false). split; [apply Hh3; right; reflexivity|auto].
+    + unfold gc_register in H3'.
+      destruct (resize_more hashf gc_swap gc_primes gc_load_num gc_load_den _) as [g2|]; [|discriminate].
+      destruct (nslots g2 =? 0); [discriminate|]. destruct (rh_insert gc_swap _ _ _) as [[sl b]|]; [|discriminate].
+      injection H3' as <-. simpl. discriminate.
 Qed.
 
 (* the executable ledger used as the oracle of the correspondence check is `led` *)
@@ -1117,16 +1367,18 @@ Qed.
 Theorem led_list_spec_thm : forall l q s, In (q, s) (led_list l) <-> led l q s.
 Proof.
   induction l as [|e l IH]; intros q s; simpl; [tauto|].
-  destruct e as [p r|p|p|p]; simpl.
+  destruct e as [p r|p|p|p|p r|]; simpl.
   - rewrite IH. split; [intros [H|H]; [left; injection H; auto|right; assumption]|].
     intros [[-> ->]|H]; [left; reflexivity|right; assumption].
   - rewrite drop_ptr_in, IH. tauto.
   - rewrite drop_ptr_in, IH. tauto.
   - apply IH.
+  - rewrite IH. split; [intros [H|H]; [left; injection H; auto|right; assumption]|].
+    intros [[-> ->]|H]; [left; reflexivity|right; assumption].
+  - apply IH.
 Qed.
 
 (* ------------------------------------------------------------------ 8. decidable admissibility *)
-Definition is_reg (l : list gslot) (p : N) : bool := existsb (fun e => N.eqb (ptr e) p) (entries l).
 
 Definition admb (g : gc) (o : op) : bool :=
   match o with
@@ -1142,13 +1394,13 @@ Proof.
   unfold is_reg. apply existsb_exists. exists e. split; [apply in_entries; assumption|apply N.eqb_eq; assumption].
 Qed.
 
-Fixpoint adm_runb (hashf : N -> N) (owns : N -> list N) (rf nf : bool) (ops : list op) (g : gc) : bool :=
+Fixpoint adm_runb (hashf : N -> N) (d : dtors) (rf nf : bool) (ops : list op) (g : gc) : bool :=
   match ops with
   | [] => true
-  | o :: r => admb g o && adm_runb hashf owns rf nf r (fst (Gstep hashf owns rf nf g o))
+  | o :: r => admb g o && adm_runb hashf d rf nf r (fst (Gstep hashf d rf nf g o))
   end.
 
-Lemma adm_runb_ok hashf owns rf nf ops : forall g, adm_runb hashf owns rf nf ops g = true -> Gadm hashf owns rf nf ops g.
+Lemma adm_runb_ok hashf d rf nf ops : forall g, adm_runb hashf d rf nf ops g = true -> Gadm hashf d rf nf ops g.
 Proof.
   induction ops as [|o ops IH]; intros g H; simpl in *; [exact I|].
   apply andb_prop in H. destruct H as [H1 H2]. split; [apply admb_ok; assumption|apply IH; assumption].
@@ -1162,6 +1414,22 @@ Definition ex_owns (p : N) : list N :=
 (* allocations colliding modulo 5 (homes 1,1,1), a collection that reclaims 8 and 16 whose
    destructors delete a pending object and the marked survivor 24 from inside the sweep, an
    explicit deletion, re-use of a freed address, a root *)
+(* the destructor of 8 also allocates a managed object at 4096 (outside the address window so
+   far, home colliding modulo 5) and a root at 4104 *)
+Definition ex_spawns (p : N) : list (N * bool) :=
+  if N.eqb p 8 then [(4096, false); (4104, true)]%N else [].
+Definition ex_d : dtors := mkD ex_owns ex_spawns [8; 16; 24]%N.
+
+Lemma ex_d_ok : dtors_ok ex_d.
+Proof.
+  split; [|split].
+  - repeat constructor; simpl; intuition discriminate.
+  - intros q t. unfold ex_d, ex_owns; simpl. destruct (N.eqb q 8); [simpl; intuition|].
+    destruct (N.eqb q 16); simpl; intuition.
+  - intros q p r. unfold ex_d, ex_spawns; simpl. destruct (N.eqb q 8); simpl; [|tauto].
+    intros [H|[H|[]]]; injection H as <- <-; intuition discriminate.
+Qed.
+
 Definition ex_ops : list op :=
   [OAlloc 8 false [8]; OAlloc 48 false [8; 48]; OAlloc 88 false [8; 48; 88];
    OAlloc 16 false [8; 48; 88; 16]; OAlloc 24 false [8; 48; 88; 16; 24];
@@ -1187,14 +1455,14 @@ Qed.
 
 Lemma add_pending_Inv hashf g q : Inv hashf g -> is_reg (slots g) q = false ->
   let g' := set_pending g [Some q] in
-  Inv hashf g' /\ pending g' = [Some q] /\ nitems g' = nitems g /\ measure g' = S (nitems g).
+  Inv hashf g' /\ pending g' = [Some q] /\ nitems g' = nitems g /\ depth g' = S (S (S (nitems g))).
 Proof.
   intros [Hm Hcl] Hr g'. split; [|split; [reflexivity|split; [reflexivity|]]].
   - split; [|exact Hcl]. destruct Hm. constructor; auto.
     intros q0 [Hq0|[]] e He Hp. injection Hq0 as <-.
     assert (is_reg (slots g) q = true); [|congruence].
     unfold is_reg. apply existsb_exists. exists e. split; [apply in_entries; exact He|apply N.eqb_eq; exact Hp].
-  - unfold measure, cnt. simpl. lia.
+  - unfold depth. simpl. lia.
 Qed.
 
 (* ------------------------------------------------------------------ 10. GC_Mark_Item finds what is registered *)
@@ -1282,15 +1550,15 @@ Proof.
 Qed.
 
 (* ------------------------------------------------------------------ 11. every intermediate step *)
-Lemma Gadm_app hashf owns rf nf : forall a b g, Gadm hashf owns rf nf (a ++ b) g -> Gadm hashf owns rf nf a g.
+Lemma Gadm_app hashf d rf nf : forall a b g, Gadm hashf d rf nf (a ++ b) g -> Gadm hashf d rf nf a g.
 Proof.
   induction a as [|o a IH]; intros b g H; simpl in *; [exact I|].
   destruct H as [H1 H2]. split; [exact H1|]. eapply IH; eauto.
 Qed.
 
-Theorem registry_every_step_thm : forall hashf owns rf nf done rest,
-  Gadm hashf owns rf nf (done ++ rest) gc_init ->
-  Inv hashf (Grun hashf owns rf nf done gc_init) /\ Quiet (Grun hashf owns rf nf done gc_init).
+Theorem registry_every_step_thm : forall hashf d rf nf done rest, dtors_ok d ->
+  Gadm hashf d rf nf (done ++ rest) gc_init ->
+  Inv hashf (Grun hashf d rf nf done gc_init) /\ Quiet (Grun hashf d rf nf done gc_init).
 Proof.
-  intros. apply registry_history_thm. eapply Gadm_app; eauto.
+  intros hashf d rf nf done rest Hd H. apply registry_history_thm; [exact Hd|]. eapply Gadm_app; eauto.
 Qed.
